@@ -1,9 +1,9 @@
-\* exhaustive: all arrival sequences of up to 3 datagrams over kind x sender, Close at any point,
+\* two goroutines running Serve on one server; exhaustive: all arrival sequences of up to 3 datagrams over kind x sender, Close at any point,
 \* handlers finishing in any order (history hidden by the VIEW)
 SPECIFICATION MCSpec
 CONSTANTS
-  V4 = FALSE
-  Loops = {1}
+  V4 = TRUE
+  Loops = {1, 2}
   ServerWideBuffer = FALSE
   StopOnParseError = FALSE
   ReuseReadBuffer = FALSE
